@@ -82,6 +82,14 @@ func checkHeader(c *mon.C, h ref.Header, planIdx int) {
 		c.Fail("decode/readheader/fields/len"+lenForm(h.Length), "ReadHeader returned a different header", det(map[string]interface{}{"got": wsx.FromWS(got).String(), "plan": plan.String()}))
 		return
 	}
+	// the three reserved bits as the accessors and the helper functions present them: RSV1 is bit 6 of the first
+	// octet on the wire, RSV2 bit 5, RSV3 bit 4 (RFC 6455 §5.2)
+	w1, w2, w3 := want[0]&0x40 != 0, want[0]&0x20 != 0, want[0]&0x10 != 0
+	b1, b2, b3 := ws.RsvBits(got.Rsv)
+	if got.Rsv1() != w1 || got.Rsv2() != w2 || got.Rsv3() != w3 || b1 != w1 || b2 != w2 || b3 != w3 || ws.Rsv(w1, w2, w3) != got.Rsv {
+		c.Fail("decode/readheader/rsv-accessors", fmt.Sprintf("wire bits rsv1..3 = %v %v %v; Header.Rsv1/2/3() = %v %v %v; RsvBits = %v %v %v; Rsv(...) = %d, Header.Rsv = %d", w1, w2, w3, got.Rsv1(), got.Rsv2(), got.Rsv3(), b1, b2, b3, ws.Rsv(w1, w2, w3), got.Rsv), det(nil))
+		return
+	}
 	if ch.Pos != len(want) {
 		c.Fail("decode/readheader/consumed/len"+lenForm(h.Length), fmt.Sprintf("ReadHeader consumed %d bytes, header has %d", ch.Pos, len(want)), det(map[string]interface{}{"plan": plan.String()}))
 		return
@@ -468,6 +476,28 @@ func subFrames() mon.Sub {
 			if got := ws.MustReadFrame(bytes.NewReader(w2)); got.Header != f2.Header || !bytes.Equal(got.Payload, f2.Payload) {
 				c.Fail("frames/must/read", "MustReadFrame differs from ReadFrame", det)
 				return
+			}
+			// ... also where they fail: a truncated stream / a failing destination is reported by the wrapper's panic
+			// (that is its documented way), never by a frame or by silence
+			if s2 > 0 {
+				func() {
+					defer func() { recover() }()
+					got := ws.MustReadFrame(bytes.NewReader(w2[:len(w2)-1]))
+					c.Fail("frames/must/read-truncated", fmt.Sprintf("MustReadFrame returned a frame of %d payload bytes for a stream one byte short of the announced %d", len(got.Payload), s2), det)
+				}()
+				func() {
+					defer func() { recover() }()
+					fd := xport.NewRec()
+					fd.FailAt = 0
+					ws.MustWriteFrame(fd, f2)
+					c.Fail("frames/must/write-failed", "MustWriteFrame returned normally although the destination's first write failed", det)
+				}()
+				fd := xport.NewRec()
+				fd.FailAt = 0
+				if err := ws.WriteFrame(fd, f2); err == nil {
+					c.Fail("frames/write/failure-swallowed", "WriteFrame returned nil although the destination's first write failed", det)
+					return
+				}
 			}
 			c.Classf("s1=%d s2=%d m=%v plan=%s", s1, s2, masked, plan.Kind)
 			c.Sample(det)
